@@ -11,7 +11,7 @@ from koala.graph_utils import remove_vertices, remove_trailing_edges, reorder_ve
 
 DRIVERS = ("c12", "lat")
 MODEL_TARGETS = ["Model/Lattice.vo", "Model/Surgery.vo"]
-TARGETS = ["Proofs/SurgeryFacts.vo"]
+TARGETS = ["Proofs/SurgeryFacts.vo", "Proofs/SurgeryTrailing.vo", "Proofs/SurgeryPerm.vo", "Proofs/SurgeryEquivariant.vo"]
 LEVEL = "proof"
 TRUST = [
     "hand-written Gallina model coq/Model/Surgery.v of cut_boundaries, remove_vertices, remove_trailing_edges, permute_vertices, reorder_vertices "
